@@ -99,6 +99,8 @@ def canrep(q):
             pass
     reps.append("jsonNumber")
     reps.append("jsonNumberE")   # the same value spelled with an exponent: "<exact>e0"
+    if q == 0:
+        reps.append("negzero")   # float64 -0.0: another representation of the number 0
     return reps
 
 for n, q in zip(nums, vals):
